@@ -97,6 +97,19 @@ def all_templates(tier):
                     if sb[1] or sb[0] > SA:
                         continue
                 ts.append(("binop", op, sa, sb))
+    for op in T.BINOPS:
+        for c in (0, 1, 2, 5, -1, -6):
+            for sh in shapes:
+                if sh[0] > min(W, 4):
+                    continue
+                if op in ("<<", ">>"):
+                    if c >= 0 and c <= 3:
+                        ts.append(("cbinop", op, "r", c, sh))
+                    if not sh[1] and sh[0] <= SA:
+                        ts.append(("cbinop", op, "l", c, sh))
+                    continue
+                ts.append(("cbinop", op, "l", c, sh))
+                ts.append(("cbinop", op, "r", c, sh))
     for sh in shapes:
         w = sh[0]
         for start in range(w + 1):
@@ -292,7 +305,7 @@ def check_template(t, wrong_spec=False, wrong_raw=False):
 def run_task(task):
     kind = task[0]
     if kind == "chunk":
-        parts = [check_template(t) for t in task[1]]
+        parts = [runner.guarded(T.tid(t), check_template, t) for t in task[1]]
         r = runner.merge_results(f"chunk[{T.tid(task[1][0])}..]", parts)
         r["source_excerpt"] = parts[0].get("source_excerpt")
         return r
